@@ -110,7 +110,9 @@ def run(ctx: Ctx) -> None:
     cfgs = [gens.FIXED_CFGS[0], gens.FIXED_CFGS[1], gens.FIXED_CFGS[4], gens.FIXED_CFGS[5], gens.FIXED_CFGS[6], gens.FIXED_CFGS[7]]
     mds = [(gens.make_md(c), c) for c in cfgs]
     n = 3000 if quick else 80000
-    for i, src in enumerate(gens.doc_stream(rng, n, 8)):
+    import itertools as _it
+    corpus = ["a\n\x85\n", "\x1f\nb\n"]                # known finding K-C03-1 (always exercised)
+    for i, src in enumerate(_it.chain(corpus, gens.doc_stream(rng, n, 8))):
         if i % 5 == 0:
             cfg = gens.rand_cfg(rng)
             try:
